@@ -12,7 +12,7 @@ META = {
         technique="property-based testing: exhaustive boundary product + rapid random triples vs big-integer reference model",
     ),
     "C20": dict(
-        level_text="Complete enumeration of truncation lengths, single-byte corruptions and single-bit key errors for a set of wallets with 16- and 32-byte keys, plus random multi-byte damage; every outcome must be the identical wallet or an error under recover().",
+        level_text="Complete enumeration of truncation lengths, single-byte corruptions and single-bit key errors for a set of wallets with 16- and 32-byte keys, plus random multi-byte damage, saves over stale files of 0..5000 bytes already at the path and PEM round trips of random wallets; every outcome must be the identical wallet or an error under recover().",
         design_ref="DESIGN.md §4 C20",
         level_note="Trusted: Go crypto/aes, crypto/cipher GCM, encoding/gob. File system errors are not injected.",
         technique="property-based testing: exhaustive fault enumeration over file bytes/keys + rapid random damage, round-trip oracle",
@@ -114,7 +114,7 @@ META = {
         technique="property-based testing with an adversarial relay model and harness-owned scheduling",
     ),
     "C15": dict(
-        level_text="Product of per-field shape classes for every request type of the three services (hundreds of thousands of requests per run) plus vertices handed to the real sync / missing-parent clients by a malicious in-memory peer, each under recover with ledger snapshot, awaiting lists and peer table compared on every error return; random combinations on top.",
+        level_text="Product of per-field shape classes for every request type of the three services (hundreds of thousands of requests per run) plus vertices handed to the real sync / missing-parent clients by a malicious in-memory peer (including refused vertices that name a transaction the node is currently awaiting), each under recover with ledger snapshot, awaiting lists and peer table compared on every error return; random combinations on top.",
         design_ref="DESIGN.md §4 C15",
         level_note="In-process calls on the real service objects; coverage-guided native fuzzing of serialized requests (FuzzC15) runs only in the thorough tier for a fixed wall-clock time. One known finding keyed by its state-change pattern.",
         technique="property-based testing: exhaustive shape-class product + rapid, no-panic and unchanged-on-rejection oracles",
